@@ -60,7 +60,8 @@ def _process_vlandb(rule, key, diff, multi, multi_all, multi_chunk):  # pylint: 
             # "undo ... all" also wipes the vlans of lines that stay, so it is only a shortcut when none does
             yield (False, rule["reverse"].format(*key) + " all", None)
             return
-        elif not multi and not multi_all:
+        elif not multi and not multi_all and not diff[Op.UNCHANGED]:
+            # the bare reverse drops the whole mapping: not when another line of the same key stays
             yield (False, rule["reverse"].format(*key), None)
             return
 
